@@ -55,6 +55,9 @@ def run(ctx):
     # field (Rrsig::flatten, convert_octets, OctetsFrom) -- shared with C05
     import c05
     c05.rule_conv(ctx, F)
+    c04.rule_charlen(ctx, F)    # the signer sorts character-string records with it
+    import c17
+    c17.rule_use(ctx, F)        # validity periods are compared in serial arithmetic
 
 
 def _tokens(b, F, depth=0):
